@@ -1,4 +1,4 @@
-import SluVerif.Proofs.SchedProgInit
+import SluVerif.Props.C03Global
 #print axioms Slu.schedule_spec
 #print axioms Slu.takePanel_spec
 #print axioms Slu.global_invariant
@@ -8,3 +8,8 @@ import SluVerif.Proofs.SchedProgInit
 #print axioms Slu.waitChain_desc
 #print axioms Slu.desc_taken
 #print axioms Slu.global_progress
+#print axioms Slu.pipeInv_sched
+#print axioms Slu.pipeInv_finish
+#print axioms Slu.global_all_invariants
+#print axioms Slu.global_handout_chain
+#print axioms Slu.global_finish_descendants_done
